@@ -120,6 +120,16 @@ CLAIMS["C20"] = dict(
     technique="abstract interpretation of mesh constructors (symbolic sizes, versioned face arrays) + algebraic GVN of index tables",
     ref="DESIGN.md section 4 C20")
 
+CLAIMS["C19"] = dict(
+    text=("Whole statement up to user callables: add_source (1D and 2D) abstractly interpreted with uninterpreted sources "
+          "gives residual[i] += source_i(centres, q) exactly once per given entry, None skipped; rhs calls it once after the "
+          "flux balance and is its only caller; model constructors store the list unmodified; the nozzle constructor is "
+          "interpreted with Python closure semantics (late binding, default binding, self-recursion) and every composed "
+          "callable equals user_i + builtin_i; built-in sources equal -(1/A dA/dx) times the mass / momentum-convective / "
+          "enthalpy fluxes and the geometric factor decodes to (A(xf[c+1])-A(xf[c]))/((xf[c+1]-xf[c]) A(xc[c])) on any mesh."),
+    technique="abstract interpretation with closure semantics + access-relation decoding + algebraic GVN + AST who-may-call query",
+    ref="DESIGN.md section 4 C19")
+
 NA_REASONS = {
     "C09": ("runtime invariant of trajectories (range and total variation after every step for all data); its "
             "code-shape premises are owned and decided by C02, C05, C11, C12, C18; the remaining step (flux "
